@@ -24,6 +24,6 @@ MANIFEST = {
     "technique": "static analysis: switch-table extraction from MIR (variant -> outcome maps) and exhaustive cross-checking of the finite kind tables",
     "level": "Decides the finite part of C19 exhaustively: every one of the tables that tie a value's variant to its kind, code, name, predicate, typed "
     "conversion and typed getter is extracted from the compiled match statements and checked to be total, injective, mutually inverse and "
-    "variant-exact. A wrong arm compiles and passes any test that does not happen to exercise that kind.",
+    "variant-exact and unconditional in its arm; the named dict shortcuts (id / ts / safe_id) hand out the stored value. A wrong arm compiles and passes any test that does not happen to exercise that kind.",
     "note": "Partial claim: make_from_dicts' sorted-union column law is not decided. Trusted: rustc MIR.",
 }
